@@ -633,6 +633,21 @@ def execute(spec):
                             faults["delivery:" + k] = faults.get("delivery:" + k, 0) + 1
                         if not fired:
                             faults["delivery:fault-free"] = 1
+                        if calc == "vasp" and frng.random() < 0.3:
+                            # vasprun.xml may be handed over compressed (phonopy chooses the reader by the file name's suffix)
+                            import bz2
+                            import gzip
+                            import lzma
+
+                            ext_, opener = frng.choice([(".xz", lzma.open), (".lzma", lzma.open), (".gz", gzip.open), (".bz2", bz2.open)])
+                            done = {}
+                            for f_ in files:
+                                if f_ not in done:
+                                    with open(f_, "rb") as src_, opener(f_ + ext_, "wb") as dst_:
+                                        dst_.write(src_.read())
+                                    done[f_] = f_ + ext_
+                            files = [done[f_] for f_ in files]
+                            faults["delivery:compressed" + ext_] = 1
                         os.chdir(cwd)
                         p2 = sub(child_collect, (spec, path, files))
                         os.chdir(path)
